@@ -1,5 +1,6 @@
 import Gimli.Lemmas.WOpExpr
 import Gimli.Lemmas.WOpEval
+import Gimli.Lemmas.WOpRunF
 /-!
 # C15 — Written expressions decode to the same operations, branches and references
 
@@ -7,7 +8,8 @@ Property theorems only (helper lemmas: `Gimli/Lemmas/WOp{,Decode,Expr}.lean`). T
 writer Model `Gimli/Model/WOp.lean` (`opSize`, `opWrite`, `exprSize`, `exprOffsets`, `exprWrite`,
 the length-prefix writers, `applyFixups`), the reader Model of C07 (`Gimli.Op.parse`,
 `Gimli.Op.iterAll` = `OperationIter`) and C07's evaluator (`Gimli.Eval.computePc`,
-`Gimli.Eval.evaluateOneOperation`).  The correspondence run (`harness/src/prop/c15.rs` against
+`Gimli.Eval.evaluateOneOperation`, `Gimli.Eval.run`) and, for `eval_same`, the as-built evaluator of
+`Gimli/Spec/BuiltEval.lean`.  The correspondence run (`harness/src/prop/c15.rs` against
 `lean/Gimli/Drv/C15.lean`) ties the writer Model to `src/write/op.rs` byte for byte; C07's run ties
 the reader Model to `src/read/op.rs`.
 
@@ -218,23 +220,17 @@ theorem section_ref_resolves (e : Endian) (enc : Encoding) (uo : UnitOffs) (hasR
 
 /-! ## 5. evaluation -/
 
-/-- **Evaluating the emitted bytes executes the operations as built — one step** (`eval_same`,
-partial). Let `pre ++ op :: suf` be written successfully to `bs`, and let the evaluator (C07's Model,
-any configuration with the same byte order and encoding) stand at the start of `op` in `bs`. Then
+/-- **One evaluation step on the emitted bytes = executing the operation as built.** Let
+`pre ++ op :: suf` be written successfully to `bs`, and let the evaluator (C07's Model, any
+configuration with the same byte order and encoding) stand at the start of `op` in `bs`. Then
 
 * `evaluate_one_operation` = `execute` of the reader-side image of `op` as built, with the reader
   moved past exactly the bytes `op` emitted — whichever shorter encoding the writer chose;
 * and if that step returns, the bytecode is unchanged and the reader stands again at the start of
   an operation as built, or at the end: the next one, or — for a taken `skip`/`bra` — operation `t`.
 
-So by induction every step of an evaluation of `bs` that stays inside `bs` executes an operation as
-built, and control flows between operations exactly as the builder's indices say.
-**Gap** (why `_partial`): the induction through `evaluate_internal` itself (iteration counter,
-`end_of_expression`, the look-ahead decode after a location-completing operation, the expression
-stack while a `DW_OP_call*` target runs foreign bytecode, the `resume_with_*` paths) is not
-carried out in Lean; the whole-run equality is checked dynamically by the harness's evaluation-trace
-oracle (emitted bytes vs an independent plain re-encoding, same scripted answers). -/
-theorem eval_same_partial (e : Endian) (enc : Encoding) (uo : UnitOffs) (hasRefs : Bool)
+This is the step lemma behind `eval_same` below. -/
+theorem eval_step_same (e : Endian) (enc : Encoding) (uo : UnitOffs) (hasRefs : Bool)
     (c : Config) (hce : c.endian = e) (hcenc : c.encoding = enc)
     (pre suf : List Operation) (op : Operation) (pos : Nat) (bs : Bytes) (fx : List Fixup)
     (hoffs : ∀ f, uo = some f → ∀ en o, f en = some o → o < 2 ^ 64)
@@ -254,11 +250,50 @@ theorem eval_same_partial (e : Endian) (enc : Encoding) (uo : UnitOffs) (hasRefs
             m'.pc = bs.drop bj.length :=
   eval_step_aux e enc uo hasRefs c hce hcenc pre suf op pos bs fx hoffs hL hwf hw
 
-/-- every operation other than `skip`/`bra` leaves the evaluator's reader position and bytecode
-untouched (used above; stated for C07's `execute` over all reader operations) -/
+/-- **Evaluating the emitted bytes gives the same result as evaluating the operations as built**
+(`eval_same`). The *as-built evaluator* (`Spec/BuiltEval.lean`) is the evaluator's control loop
+with the byte decoder replaced by a look-up in the listing of the expression as built
+(`expectedDecode`: start offset ↦ reader-side image of the built operation, end offset; branch
+images carry the distance to the *intended* operation): inside the written expression it never
+looks at the emitted bytes, so the writer's choice of encodings cannot influence it.
+
+For every successfully written expression, every evaluator state that is about to start on it
+(any configuration with the writer's byte order and encoding: storage capacities, arithmetic mode,
+iteration limit, object address, initial value), every fuel and every script of answers to the
+evaluator's requests (`resume_with_*`, including `at_location` answers that make it run other
+bytecode and return), the whole run of C07's evaluator on the emitted bytes — every request with
+its operands, in order, and the final pieces / value / error — is identical to the run of the
+as-built evaluator. -/
+theorem eval_same (e : Endian) (enc : Encoding) (uo : UnitOffs) (hasRefs : Bool)
+    (ops : List Operation) (pos : Nat) (bs : Bytes) (fx : List Fixup)
+    (hoffs : ∀ f, uo = some f → ∀ en o, f en = some o → o < 2 ^ 64)
+    (hL : bs.length < 2 ^ 64) (hwf : ∀ op ∈ ops, OpWf op)
+    (hw : exprWrite e enc uo hasRefs pos ops = .ok (bs, fx))
+    (s : Eval.Eval) (hce : s.cfg.endian = e) (hcenc : s.cfg.encoding = enc)
+    (hpc : s.m.pc = bs) (hes : s.m.exprStack = [])
+    (fuel : Nat) (toks : List Eval.Tok) :
+    ∃ offs, exprOffsets enc uo ops pos = .ok offs ∧
+      Eval.run fuel toks s =
+        BuiltEval.runD (BuiltEval.builtDec bs (expectedDecode e enc uo hasRefs offs pos 0 ops)) fuel toks s := by
+  simp only [exprWrite, bind_eq_ok] at hw
+  obtain ⟨offs, ho, hw⟩ := hw
+  refine ⟨offs, ho, ?_⟩
+  have hW : Written e enc uo hasRefs ops pos bs fx offs := ⟨ho, hw, hwf, hoffs, hL⟩
+  have hg : Good e enc uo hasRefs ops pos bs offs s := by
+    refine ⟨hce, hcenc, ?_, ?_⟩
+    · intro _
+      show AtOp e enc uo hasRefs ops pos bs offs s.m.pc
+      rw [hpc]; exact atOp_start
+    · rw [hes]; intro f hf; cases hf
+  rw [← runD_parse]
+  exact (run_agree hW fuel toks s hg).symm
+
+/-- every operation other than `skip`/`bra` leaves the evaluator's reader position, bytecode and
+expression stack untouched (used above; stated for C07's `execute` over all reader operations) -/
 theorem execute_keeps_pc (c : Config) (op : Op.Operation) (m : Mach)
     (hs : ∀ t, op ≠ .skip t) (hb : ∀ t, op ≠ .bra t) (r : Eval.OpResult) (m' : Mach)
-    (h : Eval.execute c op m = .ok (r, m')) : m'.pc = m.pc ∧ m'.bytecode = m.bytecode :=
+    (h : Eval.execute c op m = .ok (r, m')) :
+    m'.pc = m.pc ∧ m'.bytecode = m.bytecode ∧ m'.exprStack = m.exprStack :=
   (execute_keeps c op m hs hb).out r m' h
 
 /-! ## non-vacuity -/
@@ -275,6 +310,11 @@ example : OpWf (.registerOffset 65535 (-9223372036854775808)) ∧ OpWf (.piece 2
 example : isBranchTo (.branch 7) 7 ∧ directRef (.derefType false 4 3) = some 3 ∧
     sectionRef ⟨4, .dwarf64, 2⟩ (.implicitPointer (.entry 1 0) (-1)) = some (.entry 1 0, 4) := by
   exact ⟨Or.inr rfl, rfl, rfl⟩
+
+-- the listing of `lit3; skip → operation 0`: at offset 1 the as-built decoder finds the branch as built
+example : BuiltEval.listingLookup
+    (expectedDecode .little ⟨8, .dwarf32, 4⟩ none false [0, 1, 4] 0 0 [.unsignedConstant 3, .skip 0]) 0 1 =
+    some (.skip (-4), 4) := by decide
 
 -- a backward branch over 32765 bytes fits (-32768), over 32766 bytes does not
 example : opWrite .little ⟨8, .dwarf32, 5⟩ none false [0, 32765, 32768] 32765 (.skip 0) =
